@@ -218,24 +218,35 @@ def refused_then_corrected(prop, tier, model, bres, chk, n_quick, n_thorough, st
                                   'output_chunk_size': 2**20})
             spec['hc'] = False
             spec['object_routes'] = False
-            kind = R.choice(['parameter', 'computation', 'channel-limit'])
+            kind = R.choice(['parameter', 'parameter-shaped', 'computation', 'computation-shaped', 'channel-limit'])
             position = R.choice(['first', 'last'])
 
             def add_object(b, good):
                 L = b.df.logical_files[0]
                 if kind == 'parameter':
                     return L.add_parameter('LATE-P', values=[1.5] if good else [1.5, 2.5, 3.5], long_name='late parameter')
+                if kind == 'parameter-shaped':
+                    # array-valued values, one too many for the zones; corrected by ONE value of another per-value shape
+                    z = L.add_zone('LATE-Z')
+                    return L.add_parameter('LATE-P', values=[5.0] if good else [[1.0, 2.0], [3.0, 4.0]], zones=[z])
                 if kind == 'computation':
                     z = L.add_zone('LATE-Z')
                     return L.add_computation('LATE-C', values=[1.0] if good else [1.0, 2.0], zones=[z])
+                if kind == 'computation-shaped':
+                    z = L.add_zone('LATE-Z')
+                    return L.add_computation('LATE-C', values=[[1.0, 2.0, 3.0]] if good else [[1.0], [2.0]], zones=[z])
                 return L.add_channel('LATE-CH', dimension=[4], element_limit=[4] if good else [2],
                                      data=np.zeros((3, 4)))
 
             def fix(obj):
                 if kind == 'parameter':
                     obj.values.value = [1.5]
+                elif kind == 'parameter-shaped':
+                    obj.values.value = [5.0]
                 elif kind == 'computation':
                     obj.values.value = [1.0]
+                elif kind == 'computation-shaped':
+                    obj.values.value = [[1.0, 2.0, 3.0]]
                 else:
                     obj.element_limit.value = [4]
             stf, bf = call(filegen.build, spec)
@@ -450,6 +461,18 @@ def oracle_readable(r, chk, prefix):
     if bad:
         chk.fail(f'{prefix}:undecodable-eflr', r.case, f'{len(bad)} explicitly formatted record(s) do not decode')
         return False
+    # an attribute component carries as many values as its (explicit or default) count says: a value that is not
+    # there is marked absent, not announced and then left out
+    for x in r.recs:
+        if x['eflr']:
+            labs = [t['label'] for t in x['template']]
+            for ob in x['objects']:
+                for lab, a in zip(labs, ob['attrs']):
+                    if a is not None and a['count'] != len(a['vals']):
+                        chk.fail(f'{prefix}:announced-values-missing', r.case,
+                                 f"{x['set_type']} {ob['name']!r} {lab}: the component announces {a['count']} value(s) and "
+                                 f"carries {len(a['vals'])}")
+                        return False
     lfs = content.split_logical_files(r.recs)
     if len(lfs) != len(r.exp):
         chk.fail(f'{prefix}:logical-file-count', r.case, f'{len(lfs)} logical files decoded, {len(r.exp)} specified')
